@@ -58,6 +58,10 @@ ReserveFail(k) == /\ ~Fits(k)
 \* size no longer fits a machine word): it fails on both kinds of target and, like every failing operation, changes nothing
 ReserveHuge(k) == /\ UNCHANGED <<log, resv>> /\ last' = Outcome("rh", k, 0, FALSE)
 
+\* a write through a reservation that was made on ANOTHER, longer target and lies beyond the end of this one (k bytes into the
+\* 3 bytes it spans): a reservation is only a range, so the target has to check it - it fails and changes nothing
+WriteForeign(k) == /\ UNCHANGED <<log, resv>> /\ last' = Outcome("wf", k, 0, FALSE)
+
 Room(r) == resv[r].e - resv[r].s
 WriteResOk(r, k)   == /\ Room(r) >= k
                       /\ log' = [i \in 1..Len(log) |->
@@ -73,6 +77,7 @@ BNext == /\ Tick
             \/ \E k \in 0..MaxK : WriteBytesOk(k) \/ WriteBytesFail(k)
             \/ \E k \in 0..MaxK : ReserveOk(k) \/ ReserveFail(k)
             \/ \E k \in 0..1 : ReserveHuge(k)
+            \/ \E k \in 0..1 : WriteForeign(k)
             \/ \E r \in 1..Len(resv), k \in 0..MaxK : WriteResOk(r, k) \/ WriteResFail(r, k)
 
 ----------------------------------------------------------------------------------------------------
